@@ -45,3 +45,17 @@ def crc_bytes_be(E, data):
     """binary framing as built by the jamod-style framer: the CRC register byte-swapped and packed big-endian,
     i.e. the same low-byte-first order as RTU"""
     return crc_bytes(E, data)
+
+
+def hexval(c):
+    """value of an ASCII hex digit character code (either case), -1 for any other character"""
+    return L.hexval(c)
+
+
+def unhex(text):
+    """bytes denoted by a hex text of even length"""
+    return L.seq(L.length(text) // 2, lambda k: hexval(L.at(text, 2 * k)) * 16 + hexval(L.at(text, 2 * k + 1)), kind='bytes', elem='int')
+
+
+def all_hex(text):
+    return L.forall(0, L.length(text), lambda k: hexval(L.at(text, k)) >= 0)
